@@ -531,8 +531,15 @@ PTRef Interpret::parseTerm(const ASTNode& term, LetRecords& letRecords) {
         if (tr == PTRef_Undef) return tr;
 
         if (strcmp(name_attr.getValue(), ":named") == 0) {
+            if (name_attr.children == nullptr or name_attr.children->empty()) {
+                reportError("attribute :named requires a symbol");
+                return PTRef_Undef;
+            }
             ASTNode& sym = **(name_attr.children->begin());
-            assert(sym.getType() == SYM_T or sym.getType() == QSYM_T);
+            if (sym.getType() != SYM_T and sym.getType() != QSYM_T) {
+                reportError("attribute :named requires a symbol");
+                return PTRef_Undef;
+            }
             char const * str = sym.getValue();
             bool const success = main_solver->tryAddTermNameFor(tr, str);
             if (not success) {
